@@ -360,12 +360,13 @@ def rt_unit(name, cfg, repo, build, tier, prop=None):
         rc, out, err = copy_tree(repo, scratch)
         if rc != 0:
             r.update(status='undecided', reason='cannot copy repo: ' + err[-500:]); return r
-        for mod_file, harness_file in cfg['attach'].items():
+        for mod_file, spec in cfg['attach'].items():
+            harness_file, modname, public = spec if isinstance(spec, (tuple, list)) else (spec, 'verif_rt', False)
             dst = os.path.join(scratch, mod_file)
             if not os.path.exists(dst):
                 r.update(status='undecided', reason='lost anchor: %s missing' % mod_file); return r
             with open(dst, 'a') as f:
-                f.write('\n#[cfg(test)]\n#[path = "%s"]\nmod verif_rt;\n' % os.path.join(VERIF, harness_file))
+                f.write('\n#[cfg(test)]\n#[path = "%s"]\n%smod %s;\n' % (os.path.join(VERIF, harness_file), 'pub(crate) ' if public else '', modname))
         env = dict(os.environ, CARGO_NET_OFFLINE='true', CARGO_TARGET_DIR=os.path.join(scratch, 'target'), VERIF_RT_TIER=tier,
                    VERIF_SEED=os.environ.get('VERIF_SEED', '1') or '1')
         cmd = ['cargo', 'test', '--offline', '--lib', cfg['test'], '--', '--nocapture', '--test-threads', '1']
@@ -382,10 +383,10 @@ def rt_unit(name, cfg, repo, build, tier, prop=None):
             if fm:
                 f = dict(tags=fm.group(1).split(','), what=fm.group(2), cfg=fm.group(3), history=fm.group(5))
                 r['findings'].append(f)
-                r['diags'].append(dict(message='bounded runtime contract check: ' + f['what'], fn='unsync::Cache (runtime)', block=None, line=0, kind='rt', tags=f['tags'],
+                r['diags'].append(dict(message='bounded runtime contract check: ' + f['what'], fn=cfg.get('fn', 'unsync::Cache(runtime)'), block=None, line=0, kind='rt', tags=f['tags'],
                                        clause=['cfg=%s history=%s' % (f['cfg'], f['history'])], source_status='real crate', rendered=l.strip(),
                                        failing_input=dict(found=True, harness=name, config=f['cfg'], history=f['history'], observed=f['what'],
-                                                          rerun='attach %s to %s as #[cfg(test)] mod and run: %s' % (list(cfg['attach'].values())[0], list(cfg['attach'].keys())[0], ' '.join(cmd)))))
+                                                          rerun='attach %s as #[cfg(test)] child modules and run: %s' % (json.dumps(cfg['attach']), ' '.join(cmd)))))
         if not m and not r['findings']:
             # the harness did not run to its summary: it does not compile against the edited source (undecided), or it panicked
             pm = re.search(r"panicked at (.*)", out)
@@ -396,7 +397,7 @@ def rt_unit(name, cfg, repo, build, tier, prop=None):
                 loc = re.search(r'panicked at ([^\n]*)\n([^\n]*)', out + err)
                 what = 'panic while executing a history: %s' % ((loc.group(1) + ' ' + loc.group(2)) if loc else pm.group(1))
                 r['findings'].append(dict(tags=['C08'], what=what, cfg='', history='(see output)'))
-                r['diags'].append(dict(message='bounded runtime contract check: ' + what, fn='unsync::Cache (runtime)', block=None, line=0, kind='rt', tags=['C08'], clause=[what],
+                r['diags'].append(dict(message='bounded runtime contract check: ' + what, fn=cfg.get('fn', 'unsync::Cache(runtime)'), block=None, line=0, kind='rt', tags=['C08'], clause=[what],
                                        source_status='real crate', rendered=(out + err)[-3000:], failing_input=dict(found=True, harness=name, observed=what)))
             else:
                 r.update(status='undecided', reason='runtime harness produced no summary: ' + (out + err)[-800:])
@@ -409,6 +410,10 @@ def rt_unit(name, cfg, repo, build, tier, prop=None):
 # ----------------------------------------------------------------------------------------------
 # known findings
 # ----------------------------------------------------------------------------------------------
+
+def cfg_what(unit):
+    return getattr(U, 'RT_UNITS', {}).get(unit, {}).get('what', 'runtime form of the contracts executed against the real crate')
+
 
 def load_known():
     known, fixed = [], []
@@ -546,7 +551,7 @@ def main():
             sm = r.get('summary') or {}
             bounded.append(dict(harness=r['unit'], bound='every history of length <= %s over %s operations in %s configurations, plus %s sampled histories (seed %s)' % (
                 sm.get('exhaustive_len'), sm.get('alphabet'), sm.get('configs'), sm.get('sampled'), sm.get('seed')), result='%s findings' % sm.get('findings'),
-                what='runtime form of the unsync contracts executed against the real crate after every operation (covers invalidate_entries_if, iter, evict_expired glue)',
+                what=cfg_what(r['unit']),
                 histories=int(sm.get('histories', 0) or 0), steps=int(sm.get('steps', 0) or 0), wall_s=round(r.get('wall', 0), 1)))
             backends.append('cargo test (real crate) / runtime contract harness %s: %s histories, wall %.1f s [bounded]' % (r['unit'], sm.get('histories'), r.get('wall', 0)))
         else:
